@@ -86,7 +86,8 @@ impl Cubic {
     pub fn new(config: Arc<CubicConfig>, _now: Instant, current_mtu: u16) -> Self {
         Self {
             state: State {
-                window: config.initial_window,
+                // never start below `minimum_window()`, whatever the configured window and initial MTU
+                window: config.initial_window.max(2 * current_mtu as u64),
                 ssthresh: u64::MAX,
                 ..Default::default()
             },
